@@ -1264,3 +1264,39 @@ def distribute_call(t, rounds=3):
                 continue
         break
     return t
+
+
+def deep_distribute(t, depth=0):
+    """distribute_call applied bottom-up through nested calls and adt constructions: conditionals buried in arguments come
+    to the top (`f(g(match S {..}))` -> `match S {.. => f(g(..))}`); the meaning is unchanged (arguments here are pure).
+    The result is tidied by prune_nested (a conditional lifted under an arm of a match on the same scrutinee is decided)."""
+    if depth == 0:
+        return prune_nested(_deep_distribute(t, 1))
+    return _deep_distribute(t, depth)
+
+
+def _deep_distribute(t, depth=1):
+    if not isinstance(t, Tm) or depth > 30:
+        return t
+    if t.k == "call":
+        args = tuple(_deep_distribute(a, depth + 1) if isinstance(a, Tm) else a for a in t.a[1:])
+        t2 = Tm("call", (t.a[0],) + args, t.n)
+        d = distribute_call(t2, rounds=1)
+        if d is not t2 and d.k in ("match", "if"):
+            if d.k == "match":
+                return Tm("match", (d.a[0], tuple((p, g, _deep_distribute(b, depth + 1)) for p, g, b in d.a[1])), d.n)
+            return Tm("if", (d.a[0], _deep_distribute(d.a[1], depth + 1), _deep_distribute(d.a[2], depth + 1)), d.n)
+        return t2
+    if t.k == "adt" and len(t.a[2]) == 1 and isinstance(t.a[2][0][1], Tm):
+        inner = _deep_distribute(t.a[2][0][1], depth + 1)
+        if inner.k == "match":
+            return Tm("match", (inner.a[0], tuple((p, g, Tm("adt", (t.a[0], t.a[1], ((t.a[2][0][0], b),)), t.n)) for p, g, b in inner.a[1])), inner.n)
+        if inner.k == "if":
+            mk = lambda b: Tm("adt", (t.a[0], t.a[1], ((t.a[2][0][0], b),)), t.n)
+            return Tm("if", (inner.a[0], mk(inner.a[1]), mk(inner.a[2])), inner.n)
+        return Tm("adt", (t.a[0], t.a[1], ((t.a[2][0][0], inner),)), t.n)
+    if t.k == "match":
+        return Tm("match", (t.a[0], tuple((p, g, _deep_distribute(b, depth + 1)) for p, g, b in t.a[1])), t.n)
+    if t.k == "if":
+        return Tm("if", (t.a[0], _deep_distribute(t.a[1], depth + 1), _deep_distribute(t.a[2], depth + 1)), t.n)
+    return t
